@@ -380,4 +380,5 @@ func probeFacts(sb *strings.Builder) {
 		l = append(l, fmt.Sprintf("(%q, [%v, %v, %v, %v], %d)", w, seen, bit, rd, lk, tags))
 	}
 	fmt.Fprintf(sb, "def closeWriteProbe : Option (List (String × List Bool × Nat)) := some [\n  %s]\n", strings.Join(l, ",\n  "))
+	envProbeFacts(sb)
 }
